@@ -258,6 +258,17 @@ def cs_rules(ctx):
             try:
                 parts = A.degree_split(tr[c], 'dt')
             except ValueError as e:
+                if 'masked(' in str(e):
+                    # a store selected by a data-dependent mask (see SymEval.store): for the
+                    # selected samples the column is something else than for the others
+                    ctx.ob('CS-CONSIST', False, None, 'column %s is one expression for every '
+                           'sample' % c, f=f, node=node, key='masked-' + c,
+                           why="column '%s' is overwritten for the samples selected by a "
+                               'data-dependent condition: for those samples it is not the '
+                               'integral of the linear signal model (the coning / sculling terms '
+                               'are largest exactly on long intervals), and a row then depends on '
+                               'the other rows of the same call' % c)
+                    continue
                 raise AnalysisError(str(e))
             c0 = parts.get(0, A.const(0))
             c1 = parts.get(1, A.const(0))
